@@ -1,5 +1,6 @@
 import ExponaxModel.Proofs.ICAlgebra
 import ExponaxModel.Model.Guards
+import ExponaxModel.Proofs.ICGenEq
 /-
 C18 — initial-condition generators honour their documented contract (deterministic post-processing;
 the random draws are inputs of the model — `jax.random` is not modelled).
@@ -53,5 +54,22 @@ theorem C18_invalid_options (z s m : Bool) :
 
 example : icNormOk true true false = true ∧ icNormOk false true false = false := by decide
 example : (0 : ℕ) < (#[1.0, 2.0] : Array ℝ).size := by simp
+
+/-! ### the deterministic post-processing REGENERATED from `exponax/ic/_base_ic.py`, `_clamping.py`, `_scaled.py` and
+`_truncated_fourier_series.py` (random draws as inputs) is the model the theorems above are about -/
+open Exponax.Gen.ICGen in
+theorem C18_generated_postprocessing (u : Array ℝ) (zm so mo : Bool) (lo hi a : ℝ) :
+    normalize_ic u zm so mo = IC.normalizeIc zm so mo u ∧
+    ClampingICGenerator_call (lo, hi) u = IC.clamp lo hi u ∧
+    ScaledICGenerator_call a u = IC.scale a u :=
+  ⟨normalize_ic_real u zm so mo, ClampingICGenerator_call_real lo hi u, ScaledICGenerator_call_real a u⟩
+
+open Exponax.Gen.ICGen in
+theorem C18_generated_truncated_series (D cutoff : ℕ) (orange : ℂ × ℂ) (so mo : Bool) (N : ℕ) (noise : Array ℂ)
+    (offset : ℂ) :
+    RandomTruncatedFourierSeries_call D cutoff orange so mo N noise offset
+      = IC.normalizeIc (HasIsZero.isZero orange.1 && HasIsZero.isZero orange.2) so mo
+          (IC.truncatedSeries D N cutoff offset noise) :=
+  RandomTruncatedFourierSeries_call_complex D cutoff orange so mo N noise offset
 
 end Exponax
